@@ -537,3 +537,41 @@ Definition empty_world (rs : list rule) (src : list (name * stat)) : world :=
 
 (** The same sources and rules with an empty out/ (cache included). *)
 Definition clean (w : world) : world := mkW (w_rules w) (w_src w) [] [] (w_clock w).
+
+(** The scope of the model, as a decidable predicate on a loaded world:
+    no file set lists an output file, and no rule or output is named like a
+    source file. *)
+Definition no_out_filesb (L : list node) (fl : list name) : bool :=
+  forallb (fun f => match find_node f L with
+                    | Some n => match ntype n with TOut => false | _ => true end
+                    | None => true
+                    end) fl.
+
+Definition scopeb (L : list node) (rules : list rule) (src : list (name * stat)) : bool :=
+  forallb (fun r => match r_kind r with
+                    | KFileSet files sels incs =>
+                        match expand_files (map fst src) files sels with
+                        | Some fl => no_out_filesb L fl
+                        | None => true
+                        end
+                    | KBundle _ => true
+                    end) rules &&
+  forallb (fun n => match ntype n with
+                    | TSrc => true
+                    | _ => match lookup (nname n) src with None => true | Some _ => false end
+                    end) L.
+
+
+Definition build_in_scopeb (ts : list name) (w : world) : bool :=
+  match load_world w ts with
+  | LOk L => scopeb L (w_rules w) (w_src w)
+  | _ => true
+  end.
+
+Fixpoint hist_in_scopeb (h : list op) (w : world) : bool :=
+  match h with
+  | [] => true
+  | o :: r => match o with OBuild ts => build_in_scopeb ts w | _ => true end &&
+              hist_in_scopeb r (step w o)
+  end.
+
